@@ -15,6 +15,11 @@ CHECKS = {
           "As C01, but the recovery step is itself a history that crashes: every recovered durable image (deduplicated on image bytes, model state and remaining depth) is continued with every maximal post-recovery script over {new, add, delete, drop(sync), commit, rollback} whose every syscall boundary is again a crash point with every admissible image, 2 crashes deep (quick) / 3 (thorough). Oracle per crash: reopen succeeds; contents are the pre- or in-flight post-state; Wal::last_pending_ops is an in-order prefix of what was queued and contains every operation followed by a successful sync; new writer + commit equals the crash-free model; rolled-back operations never return.",
           "Trusted: durability model M1-M4; queue/sync bookkeeping of the harness model (vfs::c02::MState).",
           "DESIGN.md §3-C02"),
+  "C03": ("fault_enumeration",
+          "exhaustive single- and double-fault enumeration at every storage call of every operation in every BFS-reachable state, against the real writer/compaction code",
+          "Every state of a BFS over writer histories x every enabled operation x every storage fault site (each Storage trait call and each read/write/flush/seek/set_len/sync_all of the files it hands out, on InMemoryStorage and FsStorage) x {fail before, fail after the effect}; plus every ordered pair whose second fault falls inside the error path of the first. Oracle: Err => a new reader and a reopen both show the pre-state and a retry on healthy storage reaches the post-state; Ok => both show the post-state; never a panic; after double faults the index is still openable with every referenced file present.",
+          "Trusted: fault model (a failing call fails atomically before or after its effect); contents model. Double faults are judged only by the property's second sentence (openable, no missing files) plus Ok => applied.",
+          "DESIGN.md §3-C03"),
   "C04": ("model_checking",
           "explicit-state BFS over operation histories on the real code, canonical-state dedup, reference-model conformance at every step",
           "Breadth-first search over every history of {new,drop,add,delete,commit,rollback} x 1-3 writer handles + compact + reopen up to the stated depth; every transition re-executes the real IndexWriter/Index code on a fresh index (filesystem and in-memory storage, positions on/off) and compares a fresh reader's match_all+stored output with the per-handle-queue reference model. Shortest counterexample first; state counts per configuration in the evidence.",
